@@ -16,7 +16,10 @@ LEVEL_TEXT = ("Lean theorems over an execution model of ESR's MPI use: a program
               "(makeChanges_eq_concat, initialSympify_gather, loadSubs_scatter_gather, flagged_indices_global). Real generation runs under a multi-process "
               "MPI stand-in for several rank counts incl. more ranks than functions, with randomised release order, are compared byte for byte and checked "
               "with the C03 oracle; the real make_changes, load_subs and initial_sympify are run in isolation for every (N, P) up to (40, 17) and compared "
-              "with the model and with the concatenation of the per-rank results; check_results' list of un-merged functions is compared across rank counts.")
+              "with the model and with the concatenation of the per-rank results; check_results' list of un-merged functions is compared across rank counts. "
+              "At driver level (Props/C03c, checked by the C03 check): the do_sympy / duplicate_checker driver run on P ranks equals the one-rank driver "
+              "for every P >= 1 under the named per-item hypothesis on the CAS pass (casCallRanks_eq, casCallRanks_rank_independent, makeChangesRanks_eq, "
+              "doSympyRanks_eq_doSympy, library_files_rank_independent), and perItem_needed shows the hypothesis (hpure) cannot be dropped.")
 TECHNIQUE = ("Lean 4 proof of SPMD determinism/deadlock-freedom + block data-flow lemmas + list-level proofs of the gather/offset arithmetic read from the "
              "source; skeleton and index terms regenerated from source; multi-rank differential runs; exhaustive (N,P) correspondence of the gather functions")
 RULE = ("one case = one generation run (basis, complexities 1..n, P ranks, release-delay seed) compared with the 1-rank run, or one call of the real "
